@@ -208,3 +208,16 @@ func addc(t string, c int64) string {
 }
 
 const atAxiom = ""
+
+// sub subtracts two terms, folding constants.
+func sub(a, b string) string {
+	if b == "0" {
+		return a
+	}
+	if x, ok := isConstTerm(a); ok {
+		if y, ok := isConstTerm(b); ok {
+			return bigNum(new(big.Int).Sub(x, y))
+		}
+	}
+	return app("-", a, b)
+}
